@@ -13,6 +13,7 @@
 #define HTTP_CHUNKED_CLIENT_STUBS_H
 
 size_t GD, GB;                      /* ghost indices relative to the start of a digit run */
+size_t GL;                          /* ghost position: "where the line feed of the size line will turn out to be" (acceptance clause U5) */
 size_t G_pfu_calls /* saturates at 2 */, G_pfu_off, G_pfu_len;
 _Bool G_pfu_ok;
 uint64_t G_pfu_val;
@@ -22,7 +23,8 @@ _Bool G_src_set;
 #define DG_IS16(c_) (((c_) >= (char)48 && (c_) <= (char)57) || ((c_) >= (char)65 && (c_) <= (char)70) || ((c_) >= (char)97 && (c_) <= (char)102))
 #define DG_IS10(c_) ((c_) >= (char)48 && (c_) <= (char)57)
 #define DG_IS(c_, base_) ((base_) == 16 ? DG_IS16(c_) : DG_IS10(c_))
-#define DG_V(c_) ((uint64_t)((c_) <= (char)57 ? (c_) - 48 : ((c_) <= (char)70 ? (c_) - 55 : (c_) - 87)))
+/* digit value; masked to 0..15 so that the expression is total (no overflow obligation for non-digit arguments) */
+#define DG_V(c_) ((uint64_t)(((c_) <= (char)57 ? (c_) - 48 : ((c_) | 32) - 87) & 15))
 #define DG_MAXLEN(base_) ((base_) == 16 ? 16 : 19)      /* digit strings up to this length cannot overflow 64 bits */
 
 #if defined(IORA_NATIVE) || defined(IORA_SEARCH)
